@@ -150,7 +150,7 @@ func ruleSendDump(c *Check, rule, ruleTime, ruleOrder string) {
 			}
 		}
 		// shadow mode: the capture is unconditional (also when nothing will be uploaded)
-		if st, f := boolCond(p, "*free:schemaTracksChanges", -1); f && !st && p.End == "return" && retIsNilErr(p) && len(callsOf(p, fnMainToSh)) == 0 {
+		if st, f := boolCond(p, "*free:schemaTracksChanges", -1); !(f && st) && p.End == "return" && retIsNilErr(p) && len(callsOf(p, fnMainToSh)) == 0 {
 			badOrder++
 			c.Bad(ruleOrder, fnSendTxn+"/capture-unconditional", "shadow mode: the transaction body returns successfully without having run mainToShadow (e.g. on the receive-only exit): the transaction id is then reported as synced although local changes were not captured", c.pathPos(p), describe(c, p))
 		}
